@@ -15,9 +15,89 @@ import (
 	"os"
 	"path/filepath"
 	"runtime"
+	"time"
 
 	"github.com/magefile/mage/mage"
 )
+
+// op "magefiles_seq" (library use of mage): a SEQUENCE of mage.Magefiles / mage.Invoke calls in this one
+// process over one directory, with edits between the calls that create, remove and rename nothing:
+// files are rewritten in place; the modification times of the files and of the directory can be put
+// back to what they were when the sequence started.
+type seqEdit struct {
+	Name string `json:"name"`
+	Text string `json:"text"`
+}
+
+type seqStep struct {
+	Edits            []seqEdit `json:"edits"`
+	RestoreFileMtime bool      `json:"restore_file_mtime"`
+	RestoreDirMtime  bool      `json:"restore_dir_mtime"`
+	Goos             string    `json:"goos"`
+	Goarch           string    `json:"goarch"`
+	IsDir            bool      `json:"isdir"`
+	Invoke           bool      `json:"invoke"` // mage.Invoke with List instead of mage.Magefiles
+}
+
+type seqReq struct {
+	Dir   string    `json:"dir"`
+	Cache string    `json:"cache"`
+	Steps []seqStep `json:"steps"`
+}
+
+type seqRes struct {
+	Files  []string `json:"files"`
+	Err    string   `json:"err"`
+	Rc     int      `json:"rc"`
+	Stdout string   `json:"stdout"`
+	Stderr string   `json:"stderr"`
+}
+
+func runSeq(q seqReq) interface{} {
+	var out []seqRes
+	dirStat, err := os.Stat(q.Dir)
+	if err != nil {
+		return map[string]string{"error": err.Error()}
+	}
+	dirTime := dirStat.ModTime()
+	for _, st := range q.Steps {
+		for _, e := range st.Edits {
+			p := filepath.Join(q.Dir, e.Name)
+			old, err := os.Stat(p)
+			if err != nil {
+				return map[string]string{"error": err.Error()}
+			}
+			f, err := os.OpenFile(p, os.O_WRONLY|os.O_TRUNC, 0) // in place: the directory is not touched
+			if err != nil {
+				return map[string]string{"error": err.Error()}
+			}
+			f.WriteString(e.Text)
+			f.Close()
+			if st.RestoreFileMtime {
+				os.Chtimes(p, time.Now(), old.ModTime())
+			}
+		}
+		if st.RestoreDirMtime {
+			os.Chtimes(q.Dir, time.Now(), dirTime)
+		}
+		res := seqRes{Files: []string{}}
+		if st.Invoke {
+			so, se := &bytes.Buffer{}, &bytes.Buffer{}
+			res.Rc = mage.Invoke(mage.Invocation{Dir: q.Dir, WorkDir: q.Dir, List: true, Stdout: so, Stderr: se, Stdin: &bytes.Buffer{}, CacheDir: q.Cache, GoCmd: "go"})
+			res.Stdout, res.Stderr = so.String(), se.String()
+		} else {
+			files, err := mage.Magefiles(q.Dir, st.Goos, st.Goarch, "go", &bytes.Buffer{}, st.IsDir, false)
+			if err != nil {
+				res.Err = err.Error()
+			}
+			for _, f := range files {
+				res.Files = append(res.Files, filepath.Base(f))
+			}
+		}
+		out = append(out, res)
+	}
+	return out
+}
 
 type magefilesReq struct {
 	Cwd    string `json:"cwd"` // chdir here first when non-empty (for relative Dir)
@@ -61,6 +141,13 @@ func init() {
 			}
 		}
 		return res
+	}
+	moreOps["magefiles_seq"] = func(r req) interface{} {
+		var q seqReq
+		if err := json.Unmarshal(r.Raw, &q); err != nil {
+			return map[string]string{"error": err.Error()}
+		}
+		return runSeq(q)
 	}
 	moreOps["buildctx"] = func(r req) interface{} {
 		d := build.Default
